@@ -111,6 +111,6 @@ extern "C" int LLVMFuzzerTestOneInput(const uint8_t* data, size_t size)
    in.variant = (h & 1 ? V_NAMES : 0u) | (h & 2 ? V_SYNCAUTO : 0u) | ((h >> 2) % 5 == 0 ? V_PRELOAD : 0u);
    CaseOut out;
    runCase(in, out);
-   counters["cases"]++;
+   if((++counters["cases"] & 255) == 0) writeStats();      // survive a later fatal finding
    return 0;
 }
